@@ -8,7 +8,7 @@
    An index map sends a voxel index of the result to [Some] index of the receiver or to
    [None] (= new voxel, padding). *)
 From Coq Require Import String ZArith List Bool QArith Qcanon.
-From HD Require Import C08_Model C08_Proofs C08_Proofs_Step C08_Proofs_More C08_Proofs_Qc C08_Proofs_Ext C08_Proofs_Orient C08_Proofs_Top.
+From HD Require Import C08_Model C08_Proofs C08_Proofs_Step C08_Proofs_More C08_Proofs_Qc C08_Proofs_Ext C08_Proofs_Orient C08_Proofs_Top C08_Proofs_Inv.
 Import ListNotations.
 Open Scope string_scope.
 Open Scope Z_scope.
@@ -357,6 +357,65 @@ Theorem C08_getitem_accepts_at_most_three_items :
 Proof. exact getitem_accepts_at_most_three. Qed.
 Print Assumptions C08_getitem_accepts_at_most_three_items.
 
+(* 14. the coordinate -> index direction (inverse_affine, map_reference_to_indices,
+       VolumeToVolumeTransformer).  np.linalg.inv is Cramer's rule: over ANY commutative ring and
+       for ANY matrix the adjugate applied to the physical coordinate of index (i, j, k) is
+       det * (i, j, k) [lookup_num]; the executable instance divides by det in the field Qc
+       [q_lookup, q_inv_aff, q_xform].  A scaled orthogonal affine is invertible; inverse_affine is a
+       two-sided inverse; and for EVERY finite history from a scaled orthogonal volume the result is
+       invertible and ITS coordinate -> index query finds every voxel that descends from an initial
+       voxel at exactly the coordinate that voxel had (as a function, and as the transformer
+       initial -> result and back).  Queries are pure: what a history reports for its operations
+       does not depend on the queries interleaved with them. *)
+Theorem C08_inverse_is_cramer :
+  forall R rO rI radd rmul rsub ropp, ring_theory rO rI radd rmul rsub ropp (@eq R) ->
+  forall (A : aff R) i j k,
+  lookup_num R radd rmul rsub A (phys R radd rmul A i j k) =
+  V (rmul (det3 R radd rmul rsub A) i) (rmul (det3 R radd rmul rsub A) j) (rmul (det3 R radd rmul rsub A) k).
+Proof. exact cramer_left. Qed.
+Print Assumptions C08_inverse_is_cramer.
+
+Theorem C08_scaled_orthogonal_is_invertible : forall A : aff Qc,
+  scaled_orthogonal Qc (Q2Qc 0) Qcplus Qcmult A -> q_det A <> q_zero.
+Proof. exact so_det_nonzero. Qed.
+Print Assumptions C08_scaled_orthogonal_is_invertible.
+
+Theorem C08_inverse_affine_is_inverse : forall A : aff Qc, q_det A <> q_zero ->
+  (forall i j k,
+     let p := phys Qc Qcplus Qcmult A i j k in
+     phys Qc Qcplus Qcmult (q_inv_aff A) (vx p) (vy p) (vz p) = V i j k) /\
+  (forall p0 p1 p2,
+     let n := phys Qc Qcplus Qcmult (q_inv_aff A) p0 p1 p2 in
+     phys Qc Qcplus Qcmult A (vx n) (vy n) (vz n) = V p0 p1 p2).
+Proof. exact inverse_affine_is_inverse. Qed.
+Print Assumptions C08_inverse_affine_is_inverse.
+
+Theorem C08_inverse_affine_is_lookup : forall (A : aff Qc) p0 p1 p2,
+  phys Qc Qcplus Qcmult (q_inv_aff A) p0 p1 p2 = q_lookup A (V p0 p1 p2).
+Proof. exact q_inv_aff_spec. Qed.
+Print Assumptions C08_inverse_affine_is_lookup.
+
+Theorem C08_history_lookup_finds_voxels : forall (ops : list qop) (v : qvol),
+  wf (v_shape _ _ v) -> scaled_orthogonal Qc (Q2Qc 0) Qcplus Qcmult (v_aff _ _ v) ->
+  let v' := fst (run_tr Qc (Q2Qc 0) Qcplus Qcmult Qcminus Qcopp qc_inj qc_ltb Q q_padval v ops) in
+  let Phi := snd (run_tr Qc (Q2Qc 0) Qcplus Qcmult Qcminus Qcopp qc_inj qc_ltb Q q_padval v ops) in
+  q_det (v_aff _ _ v') <> q_zero /\
+  forall j, inr (v_shape _ _ v') j -> forall i, Phi j = Some i ->
+    inr (v_shape _ _ v) i /\
+    q_lookup (v_aff _ _ v') (q_phys (v_aff _ _ v) i) = vecZ j /\
+    (let '(i0, i1, i2) := i in
+     phys Qc Qcplus Qcmult (q_xform (v_aff _ _ v) (v_aff _ _ v')) (qc_inj i0) (qc_inj i1) (qc_inj i2)) = vecZ j /\
+    (let '(j0, j1, j2) := j in
+     phys Qc Qcplus Qcmult (q_xform (v_aff _ _ v') (v_aff _ _ v)) (qc_inj j0) (qc_inj j1) (qc_inj j2)) = vecZ i.
+Proof. exact history_lookup_finds_voxels. Qed.
+Print Assumptions C08_history_lookup_finds_voxels.
+
+Theorem C08_queries_do_not_change_history : forall evs A0 v g,
+  length (run_events_from A0 v g evs) = length evs /\
+  op_outputs evs (run_events_from A0 v g evs) = run_hist_from v g (ops_of evs).
+Proof. intros. split; [apply query_outputs_aligned|apply queries_do_not_change_history]. Qed.
+Print Assumptions C08_queries_do_not_change_history.
+
 (* ---- non-vacuity of 10-12 *)
 Example C08_example_dominant : Dom Qc (Q2Qc 0) Qcopp qc_ltb ex_aff (2, true) (1, false) (0, false).
 Proof. exact ex_dom. Qed.
@@ -409,3 +468,15 @@ Example C08_example_history :
   v_arr _ _ (fst r) (0, 0, 2) [] = v_arr _ _ ex_vol (1, 2, 0) [1].
 Proof. vm_compute. repeat split; reflexivity. Qed.
 Print Assumptions C08_example_history.
+
+(* non-vacuity of 14: ex_vol2 is scaled orthogonal; after a slice with a negative step of 2, an
+   EDGE pad, a re-orientation and a handedness fix the coordinate -> index query of the result,
+   asked for the coordinate initial voxel (1,2,0) had, answers (0,0,2) - its descendant *)
+Example C08_example_lookup :
+  wf (v_shape _ _ ex_vol2) /\ scaled_orthogonal Qc (Q2Qc 0) Qcplus Qcmult (v_aff _ _ ex_vol2) /\
+  let r := run_tr Qc (Q2Qc 0) Qcplus Qcmult Qcminus Qcopp qc_inj qc_ltb Q q_padval ex_vol2 ex_ops_inv in
+  v_shape _ _ (fst r) = (2, 2, 3) /\ snd r (0, 0, 2) = Some (1, 2, 0) /\
+  vec_int (q_lookup (v_aff _ _ (fst r)) (q_phys (v_aff _ _ ex_vol2) (1, 2, 0))) = Some (0, 0, 2) /\
+  vec_int (q_lookup (v_aff _ _ ex_vol2) (q_phys (v_aff _ _ ex_vol2) (1, 2, 0))) = Some (1, 2, 0).
+Proof. exact ex_lookup. Qed.
+Print Assumptions C08_example_lookup.
